@@ -67,7 +67,8 @@ GORACE="halt_on_error=0" timeout -s QUIT -k 20 $W "$EXE" -test.run "^Test${ID}\$
 RC=$?
 cd "$ROOT"
 
-grep -E '^(VIOLATION|KNOWN-FINDING|SUMMARY|BROKEN|INCONCLUSIVE|  class=)' "$LOG"
+grep -E '^(VIOLATION |KNOWN-FINDING|SUMMARY|BROKEN|INCONCLUSIVE|  class=)' "$LOG" | head -n 300
+MORE=$(grep -c '^VIOLATION-MORE' "$LOG"); [ "$MORE" != "0" ] && echo "(+$MORE further violations: grep VIOLATION-MORE $LOG)"
 
 if grep -q '^VIOLATION ' "$LOG"; then
   exit 1
